@@ -169,6 +169,8 @@ CONFIGS = [
     ('date',      b'match date > 1 second or date header "Date" < 100 years move "%(dst)s"'),
     ('block',     b'match all attachment {\n\t\tmatch header "Content-Type" /text/ exec stdin body "true"\n\t}'),
     ('dry',       b'match header "Subject" /n(e+)dle|caf|\xc3\xa9/ or body /(plain) text|\xc3\xa9/ move "%(dst)s"'),
+    # an interpolation that fails for every message it is tried on (and one that fails for some): the run goes on with the next message
+    ('badref',    b'match header "Subject" /n(e+)dle/ label "x\\2" move "%(dst)s"\n\tmatch header "To" /(a)|./ exec { "true" "\\1" } label "to-\\0"'),
     # case-converted captures interpolated into headers (run in a UTF-8 locale: letters whose other-case form has another length)
     ('case',      b'match header { "Subject" "To" } /(.+)/l label "\\1"\n\tmatch body /(.+)/u add-header "X-Up" "\\1" label "\\0"'),
 ]
